@@ -133,8 +133,13 @@ pub fn parse(history: &[Ev], protos: &BTreeMap<usize, u32>) -> Parsed {
                         }
                     }
                 }
-                if let Some(CM::SPubInit(_)) = &req {
-                    spub_init_ops.insert((*client, *tid), id);
+                if let Some(CM::SPubInit(m)) = &req {
+                    // a refused init (empty key, protected key) leaves an earlier stream with the
+                    // same transaction id as it was
+                    let cid = p.clients.get(client).and_then(|c| c.client_id.clone()).unwrap_or_default();
+                    if !m.key.is_empty() && (is_api(*client) || model::client_may_touch(&m.key, &cid)) {
+                        spub_init_ops.insert((*client, *tid), id);
+                    }
                 }
                 p.ops.push(OpRec {
                     id,
@@ -1240,6 +1245,19 @@ impl Checker<'_> {
                     CM::Set(s) if model::is_sys(&s.key) => ("C07", "registration-answer", "setting an own $SYS entry was answered unexpectedly".into()),
                     _ => ("C01", "read-or-reject-answer", "answer not explained by any state in its window".into()),
                 };
+                // an answer of the wrong kind or with the error code of a reason that does not
+                // apply is also C13's business (one answer per request, "with the error code of
+                // the reason")
+                // (not for writes to a client's own $SYS entries: their announcements are only
+                // attributed to requests where the session-end rules need them)
+                if prop != "C07" {
+                self.violate(
+                    "C13",
+                    "answer-not-the-reason",
+                    "a request was answered with a message or error code that no state of the store explains",
+                    format!("request {} answered {} ; window [{lo},{hi}]", op.raw, describe(actual)),
+                );
+                }
                 self.violate(
                     prop,
                     rule,
